@@ -1,6 +1,280 @@
 package main
 
-import "github.com/cosmos/cosmos-proto/internal/zzverif/hz"
+import (
+	"bytes"
+	"errors"
+	"fmt"
+	"strings"
 
-func runC16(h *hz.H)    { h.InternalError("C16 not built yet") }
-func replayC16(h *hz.H) { h.InternalError("C16 not built yet") }
+	"github.com/cosmos/cosmos-proto/anyutil"
+	"github.com/cosmos/cosmos-proto/internal/zzverif/enum"
+	"github.com/cosmos/cosmos-proto/internal/zzverif/hz"
+	"google.golang.org/protobuf/proto"
+	"google.golang.org/protobuf/reflect/protodesc"
+	"google.golang.org/protobuf/reflect/protoreflect"
+	"google.golang.org/protobuf/reflect/protoregistry"
+	"google.golang.org/protobuf/types/descriptorpb"
+	"google.golang.org/protobuf/types/dynamicpb"
+	"google.golang.org/protobuf/types/known/anypb"
+	_ "google.golang.org/protobuf/types/known/durationpb"
+	_ "google.golang.org/protobuf/types/known/emptypb"
+	_ "google.golang.org/protobuf/types/known/fieldmaskpb"
+	_ "google.golang.org/protobuf/types/known/timestamppb"
+)
+
+type c16case struct {
+	Kind     string `json:"kind"` // pack | unpack-matrix | failed-pack
+	Type     string `json:"type,omitempty"`
+	ValueHex string `json:"value_hex,omitempty"`
+	Opts     string `json:"options,omitempty"`
+	URL      string `json:"type_url,omitempty"`
+	TypeRes  string `json:"type_resolver,omitempty"`
+	FileRes  string `json:"file_resolver,omitempty"`
+	Src      string `json:"source,omitempty"`
+}
+
+// dynOnly builds a message type that exists only as a descriptor (absent from the global registries).
+func dynOnlyFile() protoreflect.FileDescriptor {
+	fdp := &descriptorpb.FileDescriptorProto{
+		Name: proto.String("verif/dynonly.proto"), Package: proto.String("verif.dynonly"), Syntax: proto.String("proto3"),
+		MessageType: []*descriptorpb.DescriptorProto{{
+			Name: proto.String("DynOnly"),
+			Field: []*descriptorpb.FieldDescriptorProto{
+				{Name: proto.String("a"), Number: proto.Int32(1), Type: descriptorpb.FieldDescriptorProto_TYPE_INT32.Enum(), Label: descriptorpb.FieldDescriptorProto_LABEL_OPTIONAL.Enum()},
+				{Name: proto.String("s"), Number: proto.Int32(2), Type: descriptorpb.FieldDescriptorProto_TYPE_STRING.Enum(), Label: descriptorpb.FieldDescriptorProto_LABEL_OPTIONAL.Enum()},
+				{Name: proto.String("m"), Number: proto.Int32(3), Type: descriptorpb.FieldDescriptorProto_TYPE_MESSAGE.Enum(), TypeName: proto.String(".verif.dynonly.DynOnly"), Label: descriptorpb.FieldDescriptorProto_LABEL_REPEATED.Enum()},
+			},
+		}},
+		EnumType: []*descriptorpb.EnumDescriptorProto{{Name: proto.String("DynEnum"), Value: []*descriptorpb.EnumValueDescriptorProto{{Name: proto.String("DYN_ZERO"), Number: proto.Int32(0)}}}},
+		Service:  []*descriptorpb.ServiceDescriptorProto{{Name: proto.String("DynSvc"), Method: []*descriptorpb.MethodDescriptorProto{{Name: proto.String("Do"), InputType: proto.String(".verif.dynonly.DynOnly"), OutputType: proto.String(".verif.dynonly.DynOnly")}}}},
+	}
+	fd, err := protodesc.NewFile(fdp, protoregistry.GlobalFiles)
+	if err != nil {
+		panic(err)
+	}
+	return fd
+}
+
+type errResolver struct{}
+
+var errCustom = errors.New("custom resolver failure")
+
+func (errResolver) FindMessageByName(protoreflect.FullName) (protoreflect.MessageType, error) {
+	return nil, errCustom
+}
+func (errResolver) FindMessageByURL(string) (protoreflect.MessageType, error) { return nil, errCustom }
+
+type errFiles struct{}
+
+func (errFiles) FindFileByPath(string) (protoreflect.FileDescriptor, error) { return nil, errCustom }
+func (errFiles) FindDescriptorByName(protoreflect.FullName) (protoreflect.Descriptor, error) {
+	return nil, errCustom
+}
+
+func c16Types() []protoreflect.MessageDescriptor {
+	out := enum.PulsarTypes()
+	for _, n := range []protoreflect.FullName{"google.protobuf.Any", "google.protobuf.Timestamp", "google.protobuf.Duration", "google.protobuf.FieldMask", "google.protobuf.Empty", "cosmos_proto.ScalarDescriptor", "cosmos_proto.InterfaceDescriptor"} {
+		if mt, err := protoregistry.GlobalTypes.FindMessageByName(n); err == nil {
+			out = append(out, mt.Descriptor())
+		}
+	}
+	return out
+}
+
+func checkPack(h *hz.H, md protoreflect.MessageDescriptor, d protoreflect.Message, label string, dynFiles *protoregistry.Files, registered bool) {
+	tname := string(md.FullName())
+	var src proto.Message
+	if registered {
+		src = enum.BuildGo(d)
+	} else {
+		src = d.Interface()
+	}
+	ref, _ := proto.MarshalOptions{Deterministic: true}.Marshal(d.Interface())
+	canon := enum.Canon(d, false)
+	for _, on := range []string{"default", "Deterministic", "AllowPartial"} {
+		opts := proto.MarshalOptions{Deterministic: on == "Deterministic", AllowPartial: on == "AllowPartial"}
+		c := c16case{Kind: "pack", Type: tname, ValueHex: fmt.Sprintf("%x", ref), Opts: on}
+		key := func(o string) string { return fmt.Sprintf("C16/pack/%s/%s@%s", o, on, tname) }
+		h.Eval(len(ref) > 0, hz.HashBytes([]byte("C16"), []byte(tname), []byte(on), ref))
+		dst := &anypb.Any{}
+		var err error
+		if p := hz.Catch(func() { err = anyutil.MarshalFrom(dst, src, opts) }); p != nil || err != nil {
+			h.Violate(key("failed"), fmt.Sprintf("MarshalFrom(%s %s, %s) failed: panic=%v err=%v", tname, label, on, p, err), c)
+			continue
+		}
+		if dst.TypeUrl != "/"+tname {
+			h.Violate(key("type-url"), fmt.Sprintf("MarshalFrom(%s): TypeUrl = %q, want %q", tname, dst.TypeUrl, "/"+tname), c)
+			continue
+		}
+		if on == "Deterministic" && !bytes.Equal(dst.Value, ref) {
+			h.Violate(key("value"), fmt.Sprintf("MarshalFrom(%s %s, Deterministic): Value = %x, want %x", tname, label, dst.Value, ref), c)
+			continue
+		}
+		chk := enum.NewDyn(md)
+		if e := proto.Unmarshal(dst.Value, chk); e != nil || enum.Canon(chk, false) != canon {
+			h.Violate(key("value"), fmt.Sprintf("MarshalFrom(%s %s, %s): Value %x is not an encoding of the message (err %v)", tname, label, on, dst.Value, e), c)
+			continue
+		}
+		if on == "default" {
+			var a2 *anypb.Any
+			if p := hz.Catch(func() { a2, err = anyutil.New(src) }); p != nil || err != nil || a2 == nil || a2.TypeUrl != dst.TypeUrl {
+				h.Violate(key("new"), fmt.Sprintf("anyutil.New(%s %s): panic=%v err=%v any=%v", tname, label, p, err, a2), c)
+				continue
+			}
+		}
+		// unpack: through the type registry, and through the file registry with an empty type registry
+		var m1, m2 proto.Message
+		var e1, e2 error
+		var files protodesc.Resolver
+		if !registered {
+			files = dynFiles
+		}
+		if p := hz.Catch(func() { m1, e1 = anyutil.Unpack(dst, files, nil) }); p != nil || e1 != nil || m1 == nil {
+			h.Violate(key("unpack-default"), fmt.Sprintf("Unpack(Any{%s}) with default resolvers: panic=%v err=%v", dst.TypeUrl, p, e1), c)
+			continue
+		}
+		if p := hz.Catch(func() { m2, e2 = anyutil.Unpack(dst, files, &protoregistry.Types{}) }); p != nil || e2 != nil || m2 == nil {
+			h.Violate(key("unpack-files"), fmt.Sprintf("Unpack(Any{%s}) with an empty type registry: panic=%v err=%v", dst.TypeUrl, p, e2), c)
+			continue
+		}
+		if _, isDyn := m2.(*dynamicpb.Message); !isDyn {
+			h.Violate(key("unpack-files-kind"), fmt.Sprintf("Unpack with an empty type registry returned %T, want a dynamic message", m2), c)
+			continue
+		}
+		if registered {
+			if _, isDyn := m1.(*dynamicpb.Message); isDyn {
+				h.Violate(key("unpack-default-kind"), fmt.Sprintf("Unpack through the global type registry returned a dynamic message for registered type %s", tname), c)
+				continue
+			}
+		}
+		c1 := enum.Canon(m1.ProtoReflect(), !isDynMsg(m1))
+		c2 := enum.Canon(m2.ProtoReflect(), false)
+		if c1 != canon || c2 != canon {
+			h.Violate(key("unpack-value"), fmt.Sprintf("Unpack(Pack(%s %s)) differs from the message:\n want   %s\n types  %s\n files  %s", tname, label, clipS(canon), clipS(c1), clipS(c2)), c)
+			continue
+		}
+		b1, _ := proto.MarshalOptions{Deterministic: true}.Marshal(m1)
+		b2, _ := proto.MarshalOptions{Deterministic: true}.Marshal(m2)
+		if !bytes.Equal(b1, b2) || !bytes.Equal(b1, ref) {
+			h.Violate(key("unpack-bytes"), fmt.Sprintf("the two unpack paths re-marshal differently for %s %s: %x vs %x (reference %x)", tname, label, b1, b2, ref), c)
+		}
+		if h.WantSample() && len(ref) > 0 {
+			h.Sample(map[string]interface{}{"kind": "pack/unpack", "type": tname, "value": label, "options": on, "type_url": dst.TypeUrl, "value_hex": fmt.Sprintf("%x", dst.Value)})
+		}
+	}
+}
+
+func isDynMsg(m proto.Message) bool { _, ok := m.(*dynamicpb.Message); return ok }
+
+func clipS(s string) string {
+	if len(s) > 200 {
+		return s[:200] + "…"
+	}
+	return s
+}
+
+func runC16(h *hz.H) {
+	dynFD := dynOnlyFile()
+	dynFiles := &protoregistry.Files{}
+	dynFiles.RegisterFile(dynFD)
+	dynMD := dynFD.Messages().Get(0)
+	types := c16Types()
+	if len(types) < 10 {
+		h.InternalError("vacuous: too few message types")
+		return
+	}
+	var names []string
+	// (1) faithful pack/unpack for every <=1-slot value of every type
+	for _, md := range append(append([]protoreflect.MessageDescriptor{}, types...), dynMD) {
+		sp := enum.NewSpace(md, enum.Opts{Top: enum.Reduced, MaxDepth: 1})
+		n := 0
+		registered := md.FullName() != dynMD.FullName()
+		sp.ForEach(1, 1, func(c enum.Case) bool {
+			checkPack(h, md, sp.BuildDyn(c), sp.Label(c), dynFiles, registered)
+			n++
+			return true
+		})
+		names = append(names, fmt.Sprintf("%s: %d values", md.FullName(), n))
+	}
+	h.Rep.Bounds["types"] = names
+	// (2) every Any x resolver combination returns a message or an error, never panics
+	valid, _ := proto.Marshal(&anypb.Any{TypeUrl: "/x", Value: []byte{1}})
+	bEnc := []byte{0x0a, 0x01, 0x78} // testpb.B{x:"x"} and many others: field 1 bytes "x"
+	urls := []string{"/B", "type.googleapis.com/B", "B", "", "/", "//", "/A", "/Enumeration", "/cosmos_proto.ScalarType", "/testpb.Query", "/Query", "/Query.Counter", "/A.INT32", "/1.proto",
+		"/does.not.Exist", "/in valid name!", "/google.protobuf.Timestamp", "/google.protobuf.Any", "/verif.dynonly.DynOnly", "/verif.dynonly.DynEnum", "/verif.dynonly.DynSvc", "/verif.dynonly.DynSvc.Do", "/verif.dynonly.DynOnly.a", "/.B", "/B/", "\x00", strings.Repeat("/B", 50), "/mx.Sing", "/mx.Color", "/goproto.proto.test3.TestAllTypes.NestedEnum"}
+	values := map[string][]byte{"valid-B": bEnc, "truncated": {0x0a, 0x05, 0x78}, "garbage": {0xff, 0xff, 0xff}, "other-type": valid, "nil": nil, "empty": {}, "end-group": {0x0c}, "deep": bytes.Repeat([]byte{0x1a, 0x02}, 3)}
+	typeRes := map[string]protoregistry.MessageTypeResolver{"nil(global)": nil, "empty": &protoregistry.Types{}, "error": errResolver{}}
+	withB := &protoregistry.Types{}
+	if mt, err := protoregistry.GlobalTypes.FindMessageByName("B"); err == nil {
+		withB.RegisterMessage(mt)
+	}
+	typeRes["only-B"] = withB
+	fileRes := map[string]protodesc.Resolver{"nil(global)": nil, "empty": &protoregistry.Files{}, "dyn-only": dynFiles, "error": errFiles{}}
+	var combos int64
+	for _, u := range urls {
+		for vn, v := range values {
+			for tn, tr := range typeRes {
+				for fn, fr := range fileRes {
+					combos++
+					a := &anypb.Any{TypeUrl: u, Value: v}
+					var m proto.Message
+					var err error
+					c := c16case{Kind: "unpack-matrix", URL: u, ValueHex: fmt.Sprintf("%x", v), TypeRes: tn, FileRes: fn}
+					h.Eval(true, hz.Hash("C16m", u, vn, tn, fn))
+					if p := hz.Catch(func() { m, err = anyutil.Unpack(a, fr, tr) }); p != nil {
+						cls := "other"
+						switch {
+						case strings.Contains(strings.ToLower(u), "enum") || strings.Contains(u, "ScalarType") || strings.Contains(u, "Color"):
+							cls = "url-names-an-enum"
+						case strings.Contains(u, "Query") || strings.Contains(u, "Svc"):
+							cls = "url-names-a-service-or-method"
+						case strings.Contains(u, "INT32") || strings.HasSuffix(u, ".a"):
+							cls = "url-names-a-field"
+						}
+						h.ViolateMin(fmt.Sprintf("C16/unpack-panic/%s/types=%s/files=%s", cls, tn, fn), fmt.Sprintf("Unpack(Any{TypeUrl:%q, Value:%x}, files=%s, types=%s) panicked: %v", u, v, fn, tn, p), c, len(u)+len(v))
+						continue
+					}
+					if (m == nil) == (err == nil) {
+						h.ViolateMin("C16/unpack-contract", fmt.Sprintf("Unpack(Any{TypeUrl:%q, Value:%x}, files=%s, types=%s) returned message=%v and err=%v (exactly one must be set)", u, v, fn, tn, m, err), c, len(u)+len(v))
+					}
+				}
+			}
+		}
+	}
+	h.Rep.Bounds["unpack_matrix"] = fmt.Sprintf("%d type URLs x %d values x %d type resolvers x %d file resolvers = %d", len(urls), len(values), len(typeRes), len(fileRes), combos)
+	h.Sample(map[string]interface{}{"kind": "unpack-matrix", "type_url": "/Enumeration", "value_hex": "0a0178", "type_resolver": "empty", "file_resolver": "nil(global)"})
+	// (3) a failed pack leaves the destination untouched
+	badUTF8 := dynamicpb.NewMessage(dynMD)
+	badUTF8.Set(dynMD.Fields().ByName("s"), protoreflect.ValueOfString("\xff\xfe"))
+	srcs := map[string]proto.Message{"nil-interface": nil, "invalid-utf8-dynamic": badUTF8}
+	for sn, src := range srcs {
+		for _, on := range []string{"default", "Deterministic"} {
+			dst := &anypb.Any{TypeUrl: "/sentinel.Type", Value: []byte{9, 9, 9}}
+			var err error
+			c := c16case{Kind: "failed-pack", Src: sn, Opts: on}
+			h.Eval(true, hz.Hash("C16f", sn, on))
+			if p := hz.Catch(func() { err = anyutil.MarshalFrom(dst, src, proto.MarshalOptions{Deterministic: on == "Deterministic"}) }); p != nil {
+				h.Violate("C16/failed-pack/panic/"+sn, fmt.Sprintf("MarshalFrom(dst, %s) panicked: %v", sn, p), c)
+				continue
+			}
+			if err == nil {
+				h.Violate("C16/failed-pack/no-error/"+sn, fmt.Sprintf("MarshalFrom(dst, %s) reported no error", sn), c)
+				continue
+			}
+			if dst.TypeUrl != "/sentinel.Type" || !bytes.Equal(dst.Value, []byte{9, 9, 9}) {
+				h.Violate("C16/failed-pack/destination-modified/"+sn, fmt.Sprintf("failed MarshalFrom(dst, %s) modified dst: %q %x", sn, dst.TypeUrl, dst.Value), c)
+			}
+			if a, e := anyutil.New(src); a != nil || e == nil {
+				h.Violate("C16/failed-pack/new/"+sn, fmt.Sprintf("anyutil.New(%s) = %v, %v; want nil, error", sn, a, e), c)
+			}
+		}
+	}
+	h.Rep.Rule = "(1) every <=1-slot value (reduced alphabet, nesting 1) of every pulsar type, 7 well-known/standard types and a descriptor-only type x {default, Deterministic, AllowPartial}: pack, type URL, value bytes, unpack through both paths, agreement; (2) the full product type URLs x value bytes x type resolvers x file resolvers: message xor error, no panic; (3) failed packs leave the destination untouched; non-trivial = non-empty encoding (1), all (2)(3); distinct = hash of the case"
+	h.Rep.Assumptions = []string{"proto.Equal is replaced by canonical-form equality (bit-exact floats)", "registered types = protoregistry.GlobalTypes of this binary (checked-in packages, freshly generated mx, well-known types)"}
+}
+
+func replayC16(h *hz.H) {
+	// cases are cheap and the space small: a replay re-runs the whole space and reports whatever it finds
+	runC16(h)
+	h.Finish()
+}
